@@ -136,6 +136,8 @@ structure SharedLife where
   pIsX : Bool            -- the instance shut down first is the one that was started first
   duringStop : List St
   failStop : Bool
+  failStart : Bool := false  -- the component's (single) `Start` fails: the wrapper reports PermanentError to the attached instance, the
+                             -- graph reports it again for that instance and aborts start-up (then `startedY = allStarted = false`)
 deriving Repr
 
 def lastN (n : Nat) (l : List St) : List St := l.drop (l.length - n)
@@ -157,7 +159,8 @@ def SharedLife.stopPart (l : SharedLife) (attached isP : Bool) : List Report :=
 
 def SharedLife.reportsX (l : SharedLife) : List Report :=
   (if l.startedX then
-    [Report.status .starting, Report.status .starting] ++ l.duringStart.map Report.status ++ [Report.okIfStarting] ++
+    [Report.status .starting, Report.status .starting] ++ l.duringStart.map Report.status ++
+      (if l.failStart then [Report.status .permanent, Report.status .permanent] else [Report.okIfStarting]) ++
       (if l.allStarted then l.running.map Report.status else [])
    else []) ++ l.stopPart l.startedX l.pIsX
 
@@ -203,5 +206,29 @@ def Wrapper.apply (cap : Nat) (w : Wrapper) : WOp → Wrapper
   | .attach => w.addSource
 
 def Wrapper.runOps (cap : Nat) (w : Wrapper) (ops : List WOp) : Wrapper := ops.foldl (Wrapper.apply cap) w
+
+
+/-! ## the same wrapper, remembering what every source's watcher has been shown
+
+`WrapperE.sources` pairs each source's FSM state with the events delivered for that instance since the graph's own `Starting`
+report (which precedes `Start`, hence the attachment). -/
+
+structure WrapperE where
+  sources : List (St × List St) := []
+  ring : List St := []
+deriving Repr, DecidableEq
+
+def WrapperE.report (cap : Nat) (w : WrapperE) (e : St) : WrapperE :=
+  { sources := w.sources.map (fun s => ((transition s.1 e).1, s.2 ++ (transition s.1 e).2.toList))
+    ring := if w.sources.isEmpty then w.ring else pushRing cap w.ring e }
+
+def WrapperE.addSource (w : WrapperE) : WrapperE :=
+  { w with sources := w.sources ++ [(runState .starting (w.ring.map Report.status), run .starting (w.ring.map Report.status))] }
+
+def WrapperE.apply (cap : Nat) (w : WrapperE) : WOp → WrapperE
+  | .report e => w.report cap e
+  | .attach => w.addSource
+
+def WrapperE.runOps (cap : Nat) (w : WrapperE) (ops : List WOp) : WrapperE := ops.foldl (WrapperE.apply cap) w
 
 end OtelVerif.C11
